@@ -241,7 +241,7 @@ Definition probe_helpers : list (str * helper_id) :=
 
 Definition all_macros : list macro_id :=
   [M_str; M_i64; M_u64; M_f64; M_bool; M_arr; M_obj; M_null; M_json; M_vec; M_0; M_2; M_3;
-   M_o0; M_o1; M_o2; M_args; M_kw; M_all; M_ret_i; M_ret_b].
+   M_o0; M_o1; M_o2; M_args; M_kw; M_all; M_ret_i; M_ret_b; M_ret_j].
 
 Definition is_scalar_value (c : N) : bool := negb (N.leb 55296 c && N.leb c 57343).
 
